@@ -62,7 +62,7 @@ MODES4 = [('cga', 1), ('cga', 2), ('vga', 7), ('tandy', 6)]
 # two string arrays and two integer arrays, so that a VARPTR$ of an element of the first of each
 # kind is not the last array in memory
 SETUP = (b'A$="U2R3":DIM P$(2),Q$(2),V%(3),W%(2):P$(1)="D9":P$(2)="NE2":Q$(1)="S4BM+2,+0NL4":Q$(2)="F2"'
-         b':K%=2:N%=3:V%(1)=4:V%(2)=1:W%(0)=9:W%(1)=7:W%(2)=8:S!=2:J%=-3:D#=3')
+         b':K%=2:N%=3:V%(1)=4:V%(2)=1:W%(0)=9:W%(1)=7:W%(2)=8:S!=2:J%=-3:D#=3:H!=2.5:G#=4.5')
 
 mv, rel, ab = gml.move, gml.rel, gml.absolute
 
@@ -127,6 +127,9 @@ def extra_tokens(nattr):
         ('NM30,2', [b'NM30,2'], [ab(30, 2, goback=True)], 'N+mabs'),
         ('E=(S!)', [b'E=', V(b'S!')], [mv('E', 2)], 'var'),
         ('F=(D#)', [b'F=', V(b'D#')], [mv('F', 3)], 'var'),
+        # variables holding a half: rounded to the nearest whole number, halves away from zero (2.5 -> 3, 4.5 -> 5)
+        ('R=H!;', [b'R=H!;'], [mv('R', 3)], 'var'),
+        ('D=(G#)', [b'D=', V(b'G#')], [mv('D', 5)], 'var'),
         ('S255', [b'S255'], [gml.scale(255)], 'scale'),
         ('S4', [b'S4'], [gml.scale(4)], 'scale'),
         ('M+0,+0', [b'M+0,+0'], [rel(0, 0)], 'mrel'),
